@@ -5,7 +5,7 @@
    C02_to_originator are discharged on these instances by computation, and the theorems applied. *)
 From RSP Require Import Base Consts Ttl Crypt Packet Rewrite Choose Proxy Spec_Packet Packet_proofs
   Slots_proofs Dup_proofs Reply_proofs Forward_proofs Wf_proofs Wfrw_proofs Keeps_proofs Local_proofs
-  Refs_proofs Tight_proofs Reg_proofs Balance_proofs Properties_C02 Properties_C06 Properties_C17.
+  Refs_proofs Tight_proofs Reg_proofs Balance_proofs Slotinv_proofs Properties_C02 Properties_C06 Properties_C17.
 Local Open Scope N_scope.
 
 Definition toy_md5 (x : bytes) : bytes := firstn 16 (map (fun b => (b * 7 + 3) mod 256) x ++ repeat 7 16).
@@ -114,3 +114,9 @@ Proof.
   - split; [repeat constructor; vm_compute; try reflexivity; apply Nat.leb_le; reflexivity|].
     vm_compute. repeat split; reflexivity.
 Qed.
+
+(* C11_slot_knows_its_request is not vacuous: after the request and a writer pass slot 0 of server 0 is occupied *)
+Example ex_slot :
+  let st := fold_left (hstep toy_md5 toy_rx ex_cfg) ex_ops1 (init_state 1 1) in
+  slot_of st 0 0 = Some 0%nat /\ (exists r, get_rq st 0 = Some r /\ rq_to r = Some 0%nat /\ rq_newid r = 0).
+Proof. vm_compute. split; [reflexivity|]. eexists. repeat split; reflexivity. Qed.
